@@ -288,13 +288,19 @@ def _irtable():
     return _IRT[0]
 
 
-def _known_locals():
-    if _KNOWN[0] is False:
-        from . import names
-        t = names.table()
-        _KNOWN[0] = True
-        _KNOWN[1] = {n for sc in t.values() for nm in sc.values() for n in nm} if t else None
-    return _KNOWN[1]
+def _known_locals(rels=None):
+    """local names the pinned tree has in the given files (all recorded files when None); None when there is no table"""
+    from . import names
+    t = names.table()
+    if not t:
+        return None
+    key = tuple(sorted(rels)) if rels else None
+    if key not in _KNOWN_CACHE:
+        _KNOWN_CACHE[key] = {n for f_, sc in t.items() if key is None or f_ in key for nm in sc.values() for n in nm}
+    return _KNOWN_CACHE[key]
+
+
+_KNOWN_CACHE = {}
 
 
 def q_is_path(n):
@@ -359,7 +365,7 @@ class FX:
         self.entry_returns = {}
         self.numeric = set()
         self.localdefs = {}
-        self.known_locals = _known_locals()
+        self.known_locals = _known_locals([rel] + [m_.rel for m_ in self.extra_mods])
         self.attr_alias = {}
         self._params_seen = set()
         self.assigns = []
